@@ -180,24 +180,58 @@ def tracked_containers():
     return out
 
 
+import copy as _copy
+
+
+def all_module_containers():
+    """Every module-level (and class-level) dict / list / set of every autograd module: caches live here."""
+    out = []
+    seen = set()
+    for mname, mod in list(sys.modules.items()):
+        if not (mname == "autograd" or mname.startswith("autograd.")) or mod is None:
+            continue
+        for k, v in list(vars(mod).items()):
+            if k.startswith("__"):
+                continue
+            cands = [v] if isinstance(v, (dict, list, set)) else []
+            if isinstance(v, type) and (getattr(v, "__module__", "") or "").startswith("autograd"):
+                cands += [cv for ck, cv in vars(v).items() if isinstance(cv, (dict, list, set)) and not ck.startswith("__")]
+            for c in cands:
+                if id(c) not in seen:
+                    seen.add(id(c))
+                    out.append(c)
+    return out
+
+
 class View:
     def __init__(self):
         self.objs = tracked_objects()
         self.conts = tracked_containers()
+        self.all_conts = all_module_containers()
 
     def now(self):
         return tuple(tuple(sorted((k, repr(v)) for k, v in vars(o).items())) for _, o in self.objs) + \
             tuple(len(c) for c in self.conts)
 
     def snapshot(self):
-        return [dict(vars(o)) for _, o in self.objs]
+        # (a) attributes of module-level instances, (b) shallow contents of every module-level container: an execution must
+        # start from the same library state, including caches that a previous schedule (or the solo reference run) filled
+        return [dict(vars(o)) for _, o in self.objs], [_copy.copy(c) for c in self.all_conts]
 
     def restore(self, snap):
-        for (_, o), d in zip(self.objs, snap):
+        objs, conts = snap
+        for (_, o), d in zip(self.objs, objs):
             cur = vars(o)
             if cur != d:
                 cur.clear()
                 cur.update(d)
+        for c, saved in zip(self.all_conts, conts):
+            if len(c) != len(saved) or (isinstance(c, dict) and c.keys() != saved.keys()):
+                if isinstance(c, list):
+                    c[:] = saved
+                else:
+                    c.clear()
+                    c.update(saved)
 
 
 # ----------------------------------------------------------------- locks (none exist today; see DESIGN 2.5)
